@@ -1,12 +1,223 @@
 /-
   C17 — identifier conversion helpers produce the 3GPP encodings and invert exactly.
-  Property theorems only; helper lemmas live in Stgutg/Proofs/Convert.lean.
+  Property theorems only; helper lemmas live in Stgutg/Proofs/Convert.lean (and Proofs/Suci.lean for the digits).
+
+  Model: Model/Convert.lean. The standard-library calls `hex.DecodeString`, `net.ParseIP`, `net.IP.String` are the
+  fields of an arbitrary `Ext` in every theorem (what is assumed about them is stated as a hypothesis).
+  Specifications: Spec/Convert3gpp.lean, Spec/Ts24501Identity.lean (PLMN). Where the library ships no inverse
+  (PLMN, S-NSSAI, AMF-ID) the inverse is the specification's reader.
+  `V4Text E a w x y z` / `V6Text E b ip` (defined in Proofs/Convert.lean): the text is non-empty, `net.ParseIP` reads it as
+  that address and `net.IP.String` prints that address as that text.
 -/
-import Stgutg.Model.Convert
-import Stgutg.Spec.Ts24501Identity
-import Stgutg.Spec.Convert3gpp
+import Stgutg.Proofs.Convert
+import Stgutg.Model.NetExt
 
 namespace Stgutg.Props.C17
-open Stgutg
+open Stgutg Stgutg.Model.Convert Stgutg.Proofs.Convert
+open Stgutg.Proofs.Suci (asc)
+
+/-! ### PLMN -/
+
+/-- **C17, PLMN.** For every 3-digit MCC and 2- or 3-digit MNC (`plmn3` is defined exactly for those) `PlmnIDToNas`
+    returns the TS 24.501 three octets, and the specification's reader recovers MCC and MNC from them. -/
+theorem C17_plmn (mcc mnc : List Nat) (p : Bytes) (h : Spec.Identity.plmn3 mcc mnc = some p) :
+    plmnIDToNas (asc mcc) (asc mnc) = .ok p ∧ Spec.Identity.plmn3Decode p = some (mcc, mnc) :=
+  ⟨plmnIDToNas_digits mcc mnc p h, Stgutg.Proofs.Suci.plmn3Decode_plmn3 mcc mnc p h⟩
+
+/-- `plmn3` is defined on all the inputs of the property -/
+theorem C17_plmn_defined (mcc mnc : List Nat) (h3 : mcc.length = 3) (h23 : mnc.length = 2 ∨ mnc.length = 3)
+    (hd : ∀ d ∈ mcc ++ mnc, d < 10) : ∃ p, Spec.Identity.plmn3 mcc mnc = some p := by
+  match mcc, h3 with
+  | [c1, c2, c3], _ =>
+    rcases h23 with h2 | h3'
+    · match mnc, h2 with
+      | [n1, n2], _ =>
+        have : (Spec.Identity.allDigits [c1, c2, c3] && Spec.Identity.allDigits [n1, n2]) = true := by
+          simp [Spec.Identity.allDigits, Spec.Identity.isDigit, hd c1, hd c2, hd c3, hd n1, hd n2]
+        exact ⟨_, by simp only [Spec.Identity.plmn3, this, if_true]; rfl⟩
+    · match mnc, h3' with
+      | [n1, n2, n3], _ =>
+        have : (Spec.Identity.allDigits [c1, c2, c3] && Spec.Identity.allDigits [n1, n2, n3]) = true := by
+          simp [Spec.Identity.allDigits, Spec.Identity.isDigit, hd c1, hd c2, hd c3, hd n1, hd n2, hd n3]
+        exact ⟨_, by simp only [Spec.Identity.plmn3, this, if_true]; rfl⟩
+
+/-! ### S-NSSAI -/
+
+/-- **C17, S-NSSAI without SD.** `[1, SST]`, read back by the specification's reader. -/
+theorem C17_snssai_sst (E : Ext) (sst : Nat) (h : sst < 256) :
+    snssaiToNas E (sst : Int) [] = Spec.Convert.snssaiEncode { sst := sst, sd := none } ∧
+    Spec.Convert.snssaiDecode (snssaiToNas E (sst : Int) []) = some { sst := sst, sd := none } := by
+  have e : u8OfInt (sst : Int) = UInt8.ofNat sst := by
+    unfold u8OfInt
+    congr 1
+    omega
+  have t : (UInt8.ofNat sst).toNat = sst := by rw [UInt8.toNat_ofNat']; omega
+  simp [snssaiToNas, Spec.Convert.snssaiEncode, Spec.Convert.snssaiDecode, e, t]
+
+/-- **C17, S-NSSAI with SD.** When the SD text is the hexadecimal form of three octets (that is what `hex.DecodeString`
+    returns for it) the result is `[4, SST, SD1, SD2, SD3]`, read back by the specification's reader. -/
+theorem C17_snssai_sd (E : Ext) (sst : Nat) (h : sst < 256) (sd : Bytes) (a b c : UInt8) (hne : sd ≠ [])
+    (hhex : E.hexDecode sd = ([a, b, c], false)) :
+    snssaiToNas E (sst : Int) sd = Spec.Convert.snssaiEncode { sst := sst, sd := some (a, b, c) } ∧
+    Spec.Convert.snssaiDecode (snssaiToNas E (sst : Int) sd) = some { sst := sst, sd := some (a, b, c) } := by
+  have e : u8OfInt (sst : Int) = UInt8.ofNat sst := by
+    unfold u8OfInt
+    congr 1
+    omega
+  have t : (UInt8.ofNat sst).toNat = sst := by rw [UInt8.toNat_ofNat']; omega
+  have hemp : sd.isEmpty = false := by cases sd <;> simp_all
+  simp [snssaiToNas, Spec.Convert.snssaiEncode, Spec.Convert.snssaiDecode, e, t, hemp, hhex]
+
+/-- the hypothesis on `hex.DecodeString` holds of its stand-in for the SD "010203" of the shipped configuration,
+    and for the AMF identifier "cafe00" -/
+example : Model.NetExt.goExt.hexDecode [48, 49, 48, 50, 48, 51] = ([1, 2, 3], false) := by decide
+example : (Model.NetExt.goExt.hexDecode [99, 97, 102, 101, 48, 48]).1 = Spec.Convert.amfIdOctets 0xcafe00 := by decide
+
+/-! ### AMF identifier -/
+
+/-- **C17, AMF-ID, all 2^24 identifiers.** When the text decodes to the three octets of the 24-bit identifier `n`,
+    `AmfIdToNas` returns AMF Region ID = bits 23..16, AMF Set ID = bits 15..6, AMF Pointer = bits 5..0 of `n`
+    (TS 23.003 2.10.1), by arithmetic on the octets — no enumeration. -/
+theorem C17_amfid (E : Ext) (amfId : Bytes) (n : Nat) (hn : n < 2 ^ 24)
+    (hdec : (E.hexDecode amfId).1 = Spec.Convert.amfIdOctets n) :
+    ∃ r s p, amfIdToNas E amfId = .ok (r, s, p) ∧
+      Spec.Convert.amfIdSplit n = { region := r.toNat, set := s.toNat, pointer := p.toNat } ∧
+      Spec.Convert.amfIdJoin { region := r.toNat, set := s.toNat, pointer := p.toNat } = n := by
+  obtain ⟨r, s, p, h1, h2⟩ := amfIdToNas_octets E amfId n hdec
+  exact ⟨r, s, p, h1, h2, by rw [← h2]; exact amfId_join_split n hn⟩
+
+/-- the split is a bijection between the 24-bit identifiers and (8, 10, 6)-bit triples -/
+theorem C17_amfid_fields_invert (a : Spec.Convert.AmfId) (hr : a.region < 2 ^ 8) (hs : a.set < 2 ^ 10)
+    (hp : a.pointer < 2 ^ 6) : Spec.Convert.amfIdSplit (Spec.Convert.amfIdJoin a) = a ∧ Spec.Convert.amfIdJoin a < 2 ^ 24 := by
+  refine ⟨amfId_split_join a hr hs hp, ?_⟩
+  cases a with
+  | mk r s p =>
+    simp only [Spec.Convert.amfIdJoin] at *
+    omega
+
+/-! ### transport layer address -/
+
+/-- **C17, IPv4 only.** 32 bits, the four octets; `IPAddressToString` gives the text back. -/
+theorem C17_tla_v4 (E : Ext) (a : Bytes) (w x y z : UInt8) (h : V4Text E a w x y z) :
+    ipAddressToNgap E a [] = .ok { bytes := [w, x, y, z], bitLength := 32 } ∧
+    Spec.Convert.tlaEncode (some [w, x, y, z]) none = some { bytes := [w, x, y, z], bitLength := 32 } ∧
+    ipAddressToString E { bytes := [w, x, y, z], bitLength := 32 } = .ok (a, []) := by
+  have he : a.isEmpty = false := by have := h.nonempty; cases a <;> simp_all
+  refine ⟨?_, rfl, ?_⟩
+  · simp [ipAddressToNgap, he, h.parse, first4]
+    rfl
+  · simp [ipAddressToString, h.print]
+
+/-- **C17, IPv6 only.** 128 bits, the sixteen octets; `IPAddressToString` gives the text back. -/
+theorem C17_tla_v6 (E : Ext) (b ip : Bytes) (h : V6Text E b ip) :
+    ipAddressToNgap E [] b = .ok { bytes := ip, bitLength := 128 } ∧
+    Spec.Convert.tlaEncode none (some ip) = some { bytes := ip, bitLength := 128 } ∧
+    ipAddressToString E { bytes := ip, bitLength := 128 } = .ok ([], b) := by
+  have he : b.isEmpty = false := by have := h.nonempty; cases b <;> simp_all
+  refine ⟨?_, by simp [Spec.Convert.tlaEncode, h.len], ?_⟩
+  · simp [ipAddressToNgap, he, h.parse, to16_of_len h.len, first16_of_len h.len]
+    rfl
+  · simp [ipAddressToString, h.print]
+
+/-- **C17, dual stack.** 160 bits, the IPv4 octets first (TS 38.414); `IPAddressToString` gives both texts back. -/
+theorem C17_tla_dual (E : Ext) (a b ip : Bytes) (w x y z : UInt8) (h4 : V4Text E a w x y z) (h6 : V6Text E b ip) :
+    ipAddressToNgap E a b = .ok { bytes := [w, x, y, z] ++ ip, bitLength := 160 } ∧
+    Spec.Convert.tlaEncode (some [w, x, y, z]) (some ip) = some { bytes := [w, x, y, z] ++ ip, bitLength := 160 } ∧
+    ipAddressToString E { bytes := [w, x, y, z] ++ ip, bitLength := 160 } = .ok (a, b) := by
+  have hea : a.isEmpty = false := by have := h4.nonempty; cases a <;> simp_all
+  have heb : b.isEmpty = false := by have := h6.nonempty; cases b <;> simp_all
+  refine ⟨?_, by simp [Spec.Convert.tlaEncode, h6.len], ?_⟩
+  · simp [ipAddressToNgap, hea, heb, h4.parse, h6.parse, to16_of_len h6.len, first16_of_len h6.len, first4]
+    rfl
+  · simp [ipAddressToString, h4.print, h6.print]
+
+/-- **C17, transport layer address round trip** `IPAddressToString (IPAddressToNgap a b) = (a, b)` in the three cases -/
+theorem C17_tla_roundtrip (E : Ext) (a b ip : Bytes) (w x y z : UInt8) :
+    (V4Text E a w x y z → (ipAddressToNgap E a [] >>= ipAddressToString E) = .ok (a, [])) ∧
+    (V6Text E b ip → (ipAddressToNgap E [] b >>= ipAddressToString E) = .ok ([], b)) ∧
+    (V4Text E a w x y z → V6Text E b ip → (ipAddressToNgap E a b >>= ipAddressToString E) = .ok (a, b)) := by
+  refine ⟨fun h => ?_, fun h => ?_, fun h4 h6 => ?_⟩
+  · obtain ⟨h1, _, h3⟩ := C17_tla_v4 E a w x y z h
+    rw [h1]; exact h3
+  · obtain ⟨h1, _, h3⟩ := C17_tla_v6 E b ip h
+    rw [h1]; exact h3
+  · obtain ⟨h1, _, h3⟩ := C17_tla_dual E a b ip w x y z h4 h6
+    rw [h1]; exact h3
+
+/-- the specification's reader separates the two addresses again -/
+theorem C17_tla_spec_inverts (v4 v6 : Option Bytes) (t : Spec.Convert.BitString)
+    (h : Spec.Convert.tlaEncode v4 v6 = some t) : Spec.Convert.tlaDecode t = some (v4, v6) := by
+  unfold Spec.Convert.tlaEncode at h
+  split at h
+  · next a => split at h
+              · next ha => injection h with h; subst h; simp [Spec.Convert.tlaDecode, ha]
+              · cases h
+  · next b => split at h
+              · next hb => injection h with h; subst h; simp [Spec.Convert.tlaDecode, hb]
+              · cases h
+  · next a b => split at h
+                · next hab =>
+                  injection h with h; subst h
+                  obtain ⟨ha, hb⟩ := hab
+                  have h1 : (a ++ b).take 4 = a := by rw [← ha]; exact List.take_left
+                  have h2 : (a ++ b).drop 4 = b := by rw [← ha]; exact List.drop_left
+                  simp [Spec.Convert.tlaDecode, ha, hb, h1, h2]
+                · cases h
+  · cases h
+
+/-- the hypotheses about the standard library are satisfiable: they hold of the Go 1.23 parser / printer stand-in
+    (Model/NetExt.lean, itself compared with the real `net` on every run) for "10.0.0.1" and "2001:db8::1" -/
+example : V4Text Model.NetExt.goExt [49, 48, 46, 48, 46, 48, 46, 49] 10 0 0 1 := ⟨by decide, by decide, by decide⟩
+example : V6Text Model.NetExt.goExt [50, 48, 48, 49, 58, 100, 98, 56, 58, 58, 49]
+    [0x20, 0x01, 0x0d, 0xb8, 0, 0, 0, 0, 0, 0, 0, 0, 0, 0, 0, 1] := ⟨by decide, by decide, by decide, by decide⟩
+
+/-! ### protocol configuration options -/
+
+/-- **C17, PCO round trip.** For every list of containers whose length fields state their contents (so contents of
+    0..255 octets), `UnMarshal(Marshal(l))` succeeds and returns `l` — by induction on the list over the three-state
+    reader (in particular the reader's loop never runs out of fuel: it does not hang). -/
+theorem C17_pco_roundtrip (l : List PcoUnit) (hl : ∀ u ∈ l, u.len.toNat = u.contents.length) :
+    pcoUnmarshal (pcoMarshal l) = .ok l := pco_roundtrip l hl
+
+/-- **C17, PCO reader is total.** On every octet string `UnMarshal` returns a list or its error: it never hangs
+    (each turn of the three-state loop makes progress) and never panics. -/
+theorem C17_pco_unmarshal_total (data : Bytes) (e : Err) (h : pcoUnmarshal data = .error e) : e = Err.error :=
+  pcoUnmarshal_total data e h
+
+/-- **C17, PCO encoding.** `Marshal` produces the TS 24.008 10.5.6.3 octets (0x80, then identifier, length, contents per
+    unit), and the specification's reader recovers the containers from them. -/
+theorem C17_pco_is_ts24008 (l : List PcoUnit) (hl : ∀ u ∈ l, u.len.toNat = u.contents.length) :
+    pcoMarshal l = Spec.Convert.pcoEncode (l.map toContainer) ∧
+    Spec.Convert.pcoDecode (pcoMarshal l) = some (l.map toContainer) := by
+  have h1 : pcoMarshal l = Spec.Convert.pcoEncode (l.map toContainer) := by
+    unfold pcoMarshal Spec.Convert.pcoEncode
+    rw [marshalUnits_spec l hl]
+    rfl
+  refine ⟨h1, ?_⟩
+  rw [h1]
+  unfold Spec.Convert.pcoEncode Spec.Convert.pcoDecode
+  simp only
+  apply spec_decode_units _ _ ?_ (Nat.le_refl _)
+  intro c hc
+  obtain ⟨u, hu, rfl⟩ := List.mem_map.mp hc
+  have := hl u hu
+  have := u.len.toNat_lt
+  have := u.id.toNat_lt
+  simp only [toContainer]
+  omega
+
+example : ∀ u ∈ [({ id := 0x000d, len := 0, contents := [] } : PcoUnit), { id := 0x0003, len := 4, contents := [8, 8, 8, 8] }],
+    u.len.toNat = u.contents.length := by decide
+
+/-! ### DNN -/
+
+/-- **C17, DNN.** Length octet then value (for values of at most 255 octets the length octet is the length), and
+    `UnmarshalBinary(MarshalBinary(d)) = d` for every value. -/
+theorem C17_dnn (d : Bytes) :
+    dnnUnmarshal (dnnMarshal d) = .ok d ∧ dnnMarshal d = Spec.Convert.dnnEncode d ∧
+    (d.length < 256 → Spec.Convert.dnnDecode (dnnMarshal d) = some d) := by
+  refine ⟨rfl, rfl, fun h => ?_⟩
+  have : (UInt8.ofNat d.length).toNat = d.length := by rw [UInt8.toNat_ofNat']; omega
+  simp [dnnMarshal, Spec.Convert.dnnDecode, this]
 
 end Stgutg.Props.C17
